@@ -9,6 +9,7 @@ package harness
 
 import (
 	"fmt"
+	"strings"
 	"time"
 
 	"github.com/gammazero/nexus/v3/transport/serialize"
@@ -317,6 +318,9 @@ func genC04(t *rapid.T) *Case {
 			}
 		} else if pct(t, 45, "remote") {
 			s.Transport = pick(t, remoteTransports, "tr")
+			if strings.HasPrefix(s.Transport, "ws-") && pct(t, 30, "keepalive") {
+				s.KeepAlive = pick(t, []int64{600e9, 3600e9}, "ka")
+			}
 		}
 		if pct(t, 15, "tinyq") {
 			s.QSize = 1 + uni(t, 2, "q")
